@@ -132,6 +132,11 @@ inductive Outcome (α : Type) where
   /-- the oracle has no more answers (the harness mock throws) -/
   | exhausted (s : LoopState α)
 
+/-- time reached and number of periods of a normal return (for the examples and the driver) -/
+def Outcome.endedAt {α : Type} : Outcome α → Option (α × Nat)
+  | .ended s => some (s.t, s.period)
+  | _ => none
+
 /-- one answer of the oracle: the pair returned by `iterate` and the number of Newton iterations it
 made (statistics only) -/
 structure Answer (α : Type) where
